@@ -364,8 +364,8 @@ func (c *Ctx) noteGlobal(f string) {
 	if op, args, ok := topArgs(f); ok && op == "=>" && len(args) == 2 {
 		guard, f = args[0], args[1]
 	}
-	if bv, sort, body, ok := parseForall(f); ok {
-		c.globalQ = append(c.globalQ, qInst{guard: guard, bv: bv, sort: sort, body: body, line: len(c.lines) - 1})
+	if vs, body, ok := parseForallN(f); ok {
+		c.globalQ = append(c.globalQ, qInst{guard: guard, bv: vs[0][0], sort: vs[0][1], more: vs[1:], body: body, line: len(c.lines) - 1})
 	}
 }
 
